@@ -290,14 +290,15 @@ def conditions(tier):
         conds.append(Cond('nodes_%s_le%d' % (v, n), PP, ['len(s) <= %d' % n] + base, 'body_nodes(s, pos, %r)' % v, timeout=T,
                           twin=False, smoke=[dict(s=x, pos=p) for x, p in (('a}b', 0), ('a]', 1), ('x$y', 0), ('{a}b', 0),
                                                                             ('a' + BS + 'end{E}', 0), ('}', 1), ('', 0))]))
-    skn = [('brace', 'x?}?'), ('bracket', '?]?'), ('endenv', '?' + BS + 'end{E}?'), ('math', '?$?'), ('max1', '{?}?'),
+    skn = [('endenv', '?' + BS + 'end{F}?' + BS + 'end{E}'), ('brace', 'x?}?'), ('bracket', '?]?'), ('endenv', '?' + BS + 'end{E}?'), ('math', '?$?'), ('max1', '{?}?'),
            ('max2', BS + 'a{?}?x'), ('plain', BS + 'b[?]{?}?')]
     for v, sk in skn:
         conds.append(Cond('nodes_%s_skel' % v, PP, skel_pre(sk) + base, 'body_nodes(s, pos, %r)' % v, timeout=T, twin=False,
                           cost=2, smoke=[dict(s=skel_fill(sk), pos=p) for p in (0, 1)]))
     conds.append(Cond('expr_le%d' % n, PP, ['len(s) <= %d' % n] + base, 'body_expression(s, pos)', timeout=T, twin=False,
                       smoke=[dict(s=x, pos=0) for x in ('a', '{a}', BS + 'a', ' x', '}', '%c\nx', '$', BS + 'd', '~')]))
-    for nm, sk in [('grp', '?{?}?'), ('mac', '?' + BS + 'd?'), ('cmt', '%?\n?{?}')]:
+    for nm, sk in [('grp', '?{?}?'), ('mac', '?' + BS + 'd?'), ('cmt', '%?\n?{?}'), ('end', '?' + BS + 'end{E}'),
+                   ('begin', '?' + BS + 'begin{E}?'), ('endx', BS + 'end?')]:
         conds.append(Cond('expr_' + nm, PP, skel_pre(sk) + base, 'body_expression(s, pos)', timeout=T, twin=False, cost=2,
                           smoke=[dict(s=skel_fill(sk), pos=p) for p in (0, 1)]))
     for bt in (['{', '['] if quick else ['{', '[', '(', '<', '()']):
@@ -329,6 +330,11 @@ def conditions(tier):
                           'body_spellings(s, %r)' % a, timeout=T, twin=False, cost=2,
                           smoke=[dict(s=BS + 'n' + t) for t in ('*[a', '{a}', '[a]', 'a a', '{}{', '* {')],
                           descr='argument string %r through every legacy and new spelling; document \\n + 3 characters over {*,[,],{,},a,space}' % a))
+    for i, (a, sk) in enumerate([('{*{', BS + 'n{a}?*{b}?'), ('{*', BS + 'n{a}?*?'), ('[*{', BS + 'n[a]?*{b}'), ('*[{', BS + 'n?*?[a]{b}'),
+                                 ('{[', BS + 'n{a}?[b]?'), ('[{', BS + 'n?[a]?{b}'), ('{{', BS + 'n?a?b')]):
+        conds.append(Cond('spellskel_%d' % i, 's: str', skel_pre(sk), 'body_spellings(s, %r)' % a, timeout=T, twin=False, cost=2,
+                          smoke=[dict(s=skel_fill(sk, ' ')), dict(s=skel_fill(sk, 'x'))],
+                          descr='argument string %r, document %r (? = any character)' % (a, sk)))
     return conds
 
 
